@@ -20,7 +20,7 @@ HBusy == \E c \in Clients : cst[c] = "ended"
 Quiescent == ~SrvBusy /\ ~HBusy /\ sdpc # "cleared" /\ bdpc = "idle" /\ rgpc = "idle"
 
 Op(o) == sched' = Append(sched, o)
-Hows == {"close", "abort", "herr"}
+Hows == IF Ifaces = {} THEN {"close", "abort", "herr"} ELSE {"close", "introspect"}
 
 EnvStep ==
   /\ Len(sched) < MaxOps
